@@ -80,7 +80,11 @@ static void check_iter(const TopologyKernel &m, const bool *del, int n) {
     int s = (int)v_nondet_below((unsigned)n + 1);
     int cur = n, nxt = n, prv = -1;   // first live >= s; first live > cur; last live < cur
     for (int i = n - 1; i >= 0; --i) if (i >= s && !del[i]) cur = i;      // n is concrete per case: constant trip counts
+#ifdef C05_SELFTEST   /* deliberately wrong oracle (ignores the deleted flags): the check must FAIL; never part of a job */
+    for (int i = n - 1; i >= 0; --i) if (i > cur) nxt = i;
+#else
     for (int i = n - 1; i >= 0; --i) if (i > cur && !del[i]) nxt = i;
+#endif
     for (int i = 0; i < n; ++i) if (i < cur && !del[i]) prv = i;
     It it(&m, H(s));
     v_assert(it.valid() == (cur < n), "C05 iter: iterator(start) is valid iff a live entity >= start exists");
